@@ -155,3 +155,83 @@ def k4_string_index(res, tier):
         if r.kind in ('oob', 'unreachable', 'ub', 'diverge', 'depth', 'panic'):
             res.fail(f'C11.K4:string_index:{r.kind}', f'string[x]: path ends in {r.kind}: {str(r.info)[:200]}', {'path': str(r.info)})
     summarize_paths(res, e, results, lambda r: r.info if isinstance(r.info, dict) else None, key_prefix='C11.K4:', unwind_ok=False)
+
+
+# ---------------------------------------------------------------------------------------------- slice bounds by characters
+class _CI:
+    """str::CharIndices (forward) / Rev<CharIndices>: character positions [lo, hi) still to yield"""
+    def __init__(self, src, lo, hi, rev=False):
+        self.src, self.lo, self.hi, self.rev = src, lo, hi, rev
+
+    def copy_value(self, eng):
+        return _CI(self.src, self.lo, self.hi, self.rev)
+
+
+@obligation('C11.K4.string_slice_bounds', 'C11', programs=('vm',))
+def k4_string_slice(res, tier):
+    """StringSlice::string_index(text, x) for every number x on a text of 0..3 arbitrary Unicode characters: an integral x >= 0 names the
+    byte offset of character x (the end of the text when x >= len), an integral x < 0 the byte offset of character len - |x| (the start
+    when |x| > len), len counted in CHARACTERS; the offset is always a character boundary; a fractional x raises"""
+    W = StrWorld()
+    e, P = W.e, W.P
+    OPT = P.enum_def('Option')
+    src_rs = P.items.files['laythe_lib/src/global/primitives/string.rs']
+    import re as _re
+    mm = _re.search(r'^impl StringSlice \{', src_rs, _re.M)
+    line = src_rs.count('\n', 0, mm.start()) + 1
+    fs = [f for f in P.fns if f.name.endswith('::string_index') and f'<impl at laythe_lib/src/global/primitives/string.rs:{line}:' in f.name]
+    if len(fs) != 1:
+        res.inconclusive('StringSlice::string_index not located')
+        return
+    f = fs[0]
+    m = e.model
+
+    def val(e_, v):
+        while isinstance(v, Ref):
+            v = v.cell.get(e_)
+        return v
+    m(r'^core::str::<impl str>::char_indices$', lambda e_, a, c: _CI(val(e_, a[0]), bv(0, 64), val(e_, a[0]).n))
+    m(r'^<((std|core)::str::)?CharIndices as (std::iter::|core::iter::)?Iterator>::rev$', lambda e_, a, c: _CI(val(e_, a[0]).src, val(e_, a[0]).lo, val(e_, a[0]).hi, True))
+
+    def m_nth(e_, a, c):
+        it = val(e_, a[0])
+        if not isinstance(it, _CI):
+            return NotImplemented
+        k = a[1]
+        oty = norm_ty(c.dest_ty) if c.dest_ty else 'Option<(usize, char)>'
+        rem = z3.simplify(it.hi - it.lo)
+        if not e_.fork_bool(z3.ULT(k, rem)):
+            return EnumV(oty, 0, None, None, OPT)
+        nmax = len(it.src.chars)
+        pos = z3.simplify(it.hi - 1 - k) if it.rev else z3.simplify(it.lo + k)
+        p = e_.concretize(pos, list(range(nmax)))
+        tup = Struct('()', {0: Cell(it.src.off[p]), 1: Cell(it.src.chars[p])}, None)
+        return EnumV(oty, 1, {'Some': {0: Cell(tup)}}, None, OPT)
+    m(r'^<((std|core)::str::)?CharIndices as (std::iter::|core::iter::)?Iterator>::nth$', m_nth)
+    m(r'^<((std::iter::|core::iter::)?(adapters::)?(\w+::)?)?Rev as (std::iter::|core::iter::)?Iterator>::nth$', m_nth)
+    res.bounds = {'text': f'0..{MAXC} characters, each any Unicode scalar value (1-4 bytes)', 'x': 'every f64'}
+
+    def path(e):
+        src = W.start(e)
+        x = z3.FP('x', z3.Float64())
+        me = Struct('StringSlice', None, NameBacking('native_self'))
+        r = e.call(f, [Ref(Cell(me)), Ref(Cell(Opaque('Hooks', 'hooks'))), src, x])
+        ok = isinstance(r, EnumV) and r.tag == 0
+        e.check(z3.BoolVal(ok) == _integral(x), 'slice bound: accepted exactly when x is an integer', {'x': str(x)})
+        if ok:
+            off = e.payload0(r, 'Ok')
+            n = src.n
+            zero = z3.FPVal(0.0, z3.Float64())
+            big = z3.fpGEQ(z3.fpAbs(x), _fp_of(n + 1))
+            mag = z3.If(big, n + 1, z3.fpToUBV(z3.RTZ(), z3.fpAbs(x), z3.BitVecSort(64)))
+            idx = z3.If(z3.fpLT(x, zero), z3.If(z3.UGT(mag, n), bv(0, 64), n - mag), z3.If(z3.UGT(mag, n), n, mag))
+            want = src._sel(idx)
+            e.check(z3.Implies(_integral(x), off == want), 'slice bound: the byte offset is that of the character the bound names, counted in characters (negative bounds from the end)',
+                    {'x': str(x)})
+            e.check(z3.Implies(_integral(x), src.boundary(off)), 'slice bound: the offset is a character boundary')
+        return {'ok': ok}
+    results = e.explore(path)
+    for r in results:
+        if r.kind in ('oob', 'unreachable', 'ub', 'diverge', 'depth', 'panic'):
+            res.fail(f'C11.K4:string_slice:{r.kind}', f'slice bound: path ends in {r.kind}: {str(r.info)[:200]}', {'path': str(r.info)})
+    summarize_paths(res, e, results, lambda r: r.info if isinstance(r.info, dict) else None, key_prefix='C11.K4:slice:', unwind_ok=False)
